@@ -11,7 +11,8 @@ from .. import gen
 from ..harness import Clause, Prop, require
 from ..oracles import ALIASES, CONFIGS, METRICS, achievable_range, population, relevant_scores
 
-MODES = ("grid", "grid", "dyadic", "distinct", "distinct", "float", "int")
+MODES = ("grid", "grid", "dyadic", "distinct", "distinct", "float", "int", "uint")
+DERIVED = ("none", "none", "none", "proportion", "replacement", "single_pass", "swap", "sample-of-swap")
 INCREASING = {"fnr", "tnr", "tonr"}  # increasing in the threshold when score_class=pos
 
 
@@ -42,12 +43,30 @@ def shift(t, k):
 
 @st.composite
 def _cases(draw, max_size=10):
-    s = draw(gen.score_sets(max_size=max_size, modes=MODES, mag=1e6, containers=("f64", "f64", "f32", "list", "neg-int", "pos-int", "neg-f32")))
+    s = draw(gen.score_sets(max_size=max_size, modes=MODES, mag=1e6, containers=("f64", "f64", "f32", "list", "neg-int", "pos-int", "neg-f32", "f128")))
     pops = [len(s["pos"]) + s["ep"], len(s["neg"]) + s["en"],
             len(s["pos"]) + len(s["neg"]) + s["ep"] + s["en"]]
     k = draw(st.integers(1, 5))
     targets = sorted(draw(st.lists(gen.target_values(pops), min_size=k, max_size=k)))
-    return dict(s=s, targets=targets)
+    return dict(s=s, targets=targets, derived=draw(st.sampled_from(DERIVED)), seed=draw(gen.RNG_SEED),
+                ratio=draw(st.sampled_from([0.5, 0.8, 0.34])))
+
+
+def _derive(obj, case):
+    """A Scores object handed out by the library itself (bootstrap samples, swapped objects)."""
+    from score_analysis import BootstrapConfig
+
+    kind = case.get("derived", "none")
+    if kind == "none":
+        return obj
+    if kind in ("swap", "sample-of-swap"):
+        obj = obj.swap()
+        if kind == "swap":
+            return obj
+        kind = "proportion"
+    np.random.seed(case.get("seed", 0))
+    cfg = BootstrapConfig(sampling_method=kind, ratio=case.get("ratio", 0.5) if kind == "proportion" else None)
+    return obj.bootstrap_sample(cfg)
 
 
 def _obj(s, sc, ec):
@@ -59,18 +78,43 @@ def _obj(s, sc, ec):
 
 def check(case):
     s = case["s"]
-    pos, neg, ep, en = s["pos"], s["neg"], s["ep"], s["en"]
     rs = np.asarray(case["targets"], dtype=float)
     nontrivial = False
-    labels = [f"mode:{s['mode']}", f"container:{s.get('container')}"]
-    for m in METRICS:
+    derived = case.get("derived", "none")
+    labels = [f"mode:{s['mode']}", f"container:{s.get('container')}", f"object:{derived}"]
+    for sc, ec in CONFIGS:
+        obj = _obj(s, sc, ec)
+        if derived != "none":
+            if derived in ("proportion", "replacement", "single_pass", "sample-of-swap") and \
+                    (not len(s["pos"]) or not len(s["neg"])):
+                derived = "none"  # bootstrap samples need both classes
+            else:
+                obj = _derive(obj, case)
+        if derived == "none":
+            pos, neg, ep, en = s["pos"], s["neg"], s["ep"], s["en"]
+        else:
+            # the oracle only needs the multiset of scores of the object that was handed out
+            pos, neg = [float(x) for x in obj.pos], [float(x) for x in obj.neg]
+            ep, en = int(obj.nb_easy_pos), int(obj.nb_easy_neg)
+        sc_o, ec_o = obj.score_class.value, obj.equal_class.value
+        for m in METRICS:
+            nontrivial |= _check_metric(obj, m, pos, neg, ep, en, rs, sc_o, ec_o, labels)
+    s_ep, s_en = s["ep"], s["en"]
+    if s_ep or s_en:
+        labels.append("easy")
+    return dict(nontrivial=nontrivial, labels=sorted(set(labels)))
+
+
+def _check_metric(obj, m, pos, neg, ep, en, rs, sc, ec, labels):
+    nontrivial = False
+    if True:
         rel = [float(x) for x in relevant_scores(m, pos, neg)]
         if not rel:
-            continue
+            return False
         state = near_tie_state(rel)
         if state == "near":
             labels.append("near-tie-skipped")
-            continue
+            return False
         labels.append("ties" if state == "exact" else "tie-free")
         Nm = population(m, len(pos), len(neg), ep, en)
         lo_f, hi_f = achievable_range(m, len(pos), len(neg), ep, en)
@@ -80,8 +124,7 @@ def check(case):
         tol = 1.0 / Nm + 1e-9
         if np.any((rc > lo) & (rc < hi)) and len(set(rel)) > 1:
             nontrivial = True
-        for sc, ec in CONFIGS:
-            obj = _obj(s, sc, ec)
+        if True:
             f = getattr(obj, m)
             th = getattr(obj, "threshold_at_" + m)
             rs_in = rs.copy()
@@ -151,9 +194,7 @@ def check(case):
             require(float(sv) == float(t_lin[i]), "ts:scalar-vs-array",
                     lambda: f"{ctx} r={rs[i]!r} scalar {sv!r} array {t_lin[i]!r}")
             require(np.array_equal(rs_in, rs), "ts:mutated-input", ctx)
-    if ep or en:
-        labels.append("easy")
-    return dict(nontrivial=nontrivial, labels=labels)
+    return nontrivial
 
 
 def check_invalid(case):
